@@ -24,6 +24,7 @@
 
 #include <algorithm>
 #include <string>
+#include <limits>
 #include <type_traits>
 #include <vector>
 
@@ -45,6 +46,21 @@ namespace boost { namespace gil {
 #pragma warning(push)
 #pragma warning(disable:4512) //assignment operator could not be generated
 #endif
+
+namespace detail {
+
+// Bits one pixel occupies in a row buffer: the buffer's element, or its bit aligned pixel type.
+template< typename Buffer, typename Enable = void >
+struct tiff_buffer_pixel_bits
+    : std::integral_constant< std::size_t, sizeof( typename Buffer::element_t ) * 8 > {};
+
+template< typename Buffer >
+struct tiff_buffer_pixel_bits< Buffer
+                             , typename std::conditional< true, void, typename Buffer::pixel_type >::type
+                             >
+    : std::integral_constant< std::size_t, pixel_bit_size< typename Buffer::pixel_type >::value > {};
+
+} // namespace detail
 
 template < int K >
 struct plane_recursion
@@ -447,6 +463,9 @@ private:
 
        row_buffer_helper_t row_buffer_helper(this->_io_dev.get_tile_size(), true );
 
+       check_buffer_size< row_buffer_helper_t >( static_cast< uint64_t >( tile_width ) * tile_height
+                                               , this->_io_dev.get_tile_size() );
+
        for( unsigned int y = 0; y < image_height; y += tile_height )
        {
            for( unsigned int x = 0; x < image_width; x += tile_width )
@@ -561,6 +580,9 @@ private:
 
        row_buffer_helper_t row_buffer_helper(this->_io_dev.get_tile_size(), true );
 
+       check_buffer_size< row_buffer_helper_t >( static_cast< uint64_t >( tile_width ) * tile_height
+                                               , this->_io_dev.get_tile_size() );
+
        for( unsigned int y = 0; y < image_height; y += tile_height )
        {
            for( unsigned int x = 0; x < image_width; x += tile_width )
@@ -618,6 +640,9 @@ private:
                                                                              , is_view_bit_aligned_t() );
       row_buffer_helper_t row_buffer_helper( size_to_allocate, true );
 
+      check_buffer_size< row_buffer_helper_t >( this->_info._width
+                                              , this->_io_dev.get_scanline_size() );
+
       it_t begin = row_buffer_helper.begin();
 
       it_t first = begin + this->_settings._top_left.x;
@@ -648,6 +673,18 @@ private:
                               , dst_view.row_begin( dst_row ));
       }
    }
+
+    // The pixel type of the buffer follows from the photometric interpretation and the bits per sample.
+    // A file whose samples provide fewer bytes per scanline or tile than that type needs is inconsistent.
+    template< typename Buffer >
+    void check_buffer_size( uint64_t pixels
+                          , uint64_t bytes_in_file
+                          )
+    {
+        io_error_if( pixels > ( std::numeric_limits< uint64_t >::max )() / detail::tiff_buffer_pixel_bits< Buffer >::value
+                     || ( pixels * detail::tiff_buffer_pixel_bits< Buffer >::value + 7 ) / 8 > bytes_in_file
+                   , "tiff: samples per pixel or bits per sample do not match the photometric interpretation" );
+    }
 
     template< typename Pixel >
     std::size_t buffer_size( std::size_t width
